@@ -89,62 +89,133 @@ def check_symmetry_operators(idx: Index, rep: Report, tier: str):
                            what=f"the term list of {label} equals the physical operator on every occupation-number state (exact matrix comparison)",
                            reason=f"matrix of the folded term list differs from {label} on {int((m != ref).sum())} entries")
     rep.floor("symmetry operator matrices compared", n, 12)
-    # the FermionOperator versions are the same lists, merged and normal ordered
-    for name, lst in (("number_operator", "number_operator_list"), ("spinz_operator", "spinz_operator_list"), ("spin2_operator", "spin2_operator_list")):
-        f = idx.function(f"{FO}::{name}")
-        t = full(f.node)
-        ok = f"all_terms = {lst}(n_orbs, up_then_down)" in t and "list_to_fermionoperator(all_terms)" in t and "return normal_ordered(" in t
-        rep.decide(ok, rule, f, f.node, text=f"{name} = normal_ordered(sum of {lst})", what="the operator object is the merged, normal-ordered term list",
-                   reason="operator construction changed")
+    # the FermionOperator versions, folded with the operator class replaced by exact matrices
+    for n_orbs in sizes:
+        for utd in (False, True):
+            N, Sz2, S2_4 = reference_ops(n_orbs, utd)
+            for name, ref, label in (("number_operator", 4 * N, "N"), ("spinz_operator", 2 * Sz2, "S_z"), ("spin2_operator", S2_4, "S^2")):
+                f = idx.function(f"{FO}::{name}")
+                got = fold_operator(idx, FO, name, 2 * n_orbs, {"n_orbs": n_orbs, "up_then_down": utd})
+                rep.decide(_mat_eq(got.m * 4, ref), rule, f, f.node, text=f"{name}({n_orbs}, up_then_down={utd}) as an operator object",
+                           what=f"the operator object equals {label} on every occupation-number state (term list merged; normal ordering does not change the operator)",
+                           reason="matrix of the folded operator differs from the physical one")
+
+
+class _FockOp:
+    """checker-side stand-in for a FermionOperator: its exact matrix on the Fock space of a fixed register"""
+    _sa_model = True
+    n = 0
+
+    def __init__(self, term=None, coefficient=1, m=None):
+        dim = 2 ** _FockOp.n
+        if m is not None:
+            self.m = m
+        elif term is None:
+            self.m = np.zeros((dim, dim), dtype=object)
+        else:
+            self.m = _frac(coefficient) * fock.term_matrix(tuple((int(j), int(d)) for j, d in term), _FockOp.n)
+
+    def __add__(self, o):
+        if not isinstance(o, _FockOp):
+            raise Undecidable(f"operator + {o!r}")
+        return _FockOp(m=self.m + o.m)
+    __iadd__ = __add__
+
+    def __sub__(self, o):
+        return _FockOp(m=self.m - o.m)
+
+    def __mul__(self, o):
+        if isinstance(o, _FockOp):
+            return _FockOp(m=self.m.dot(o.m))
+        return _FockOp(m=_frac(o) * self.m)
+    __imul__ = __mul__
+
+    def __rmul__(self, o):
+        return _FockOp(m=_frac(o) * self.m)
+
+    def __neg__(self):
+        return _FockOp(m=-self.m)
+
+
+def _frac(x):
+    from fractions import Fraction
+    if isinstance(x, bool):
+        raise Undecidable("boolean coefficient")
+    if isinstance(x, (int, Fraction)):
+        return Fraction(x)
+    if isinstance(x, float):
+        return Fraction(x).limit_denominator(10 ** 9)
+    if isinstance(x, sp.Basic) and x.is_Rational:
+        return Fraction(int(x.p), int(x.q))
+    raise Undecidable(f"coefficient {x!r} is not rational")
+
+
+def _mat_eq(a, b) -> bool:
+    return a.shape == b.shape and bool((a == b).all())
+
+
+def fold_operator(idx: Index, rel: str, fname: str, n_modes: int, args: dict):
+    """fold a repository function that builds a FermionOperator, with the class replaced by exact matrices on n_modes modes"""
+    _FockOp.n = n_modes
+    f = idx.function(f"{rel}::{fname}")
+    fo = cs.make_folder(idx, rel, ctors={"FermionOperator": lambda a, k: _FockOp(*a, **k), "normal_ordered": lambda a, k: a[0]})
+    try:
+        got = fo.run_function(f.node, dict(args))
+    except Undecidable as e:
+        raise AnalysisError(f"{fname} not foldable: {e}")
+    if not isinstance(got, _FockOp):
+        raise AnalysisError(f"{fname} folded to {got!r}")
+    return got
 
 
 def check_penalties(idx: Index, rep: Report):
+    """every penalty constructor folded with exact matrices: mu * (operator - target)^2; the combined penalty is the sum of the requested ones"""
     rule = "K9.penalty"
-    for fn, lst, tgt in (("number_operator_penalty", "number_operator_list", "n_electrons"), ("spin_operator_penalty", "spinz_operator_list", "sz"),
-                         ("spin2_operator_penalty", "spin2_operator_list", "s2")):
-        f = idx.function(f"{PEN}::{fn}")
-        asg = [n for n in own_nodes(f.node) if isinstance(n, ast.Assign) and norm(n.targets[0]) == "all_terms"]
-        ok = bool(asg) and norm(asg[0].value) == f"[[(), -{tgt}]] + {lst}(n_orbs, up_then_down)"
-        rep.decide(ok, rule, f, asg[0] if asg else f.node, text=f"{fn}: terms = (-{tgt}) * identity + operator", what="the penalised quantity is (operator - target)",
-                   reason=f"terms assembled as {norm(asg[0].value) if asg else '?'}")
-        rets = [n for n in own_nodes(f.node) if isinstance(n, ast.Return)]
-        ok = bool(rets) and norm(rets[0].value) in ("mu * squared_normal_ordered(all_terms)", "squared_normal_ordered(all_terms) * mu")
-        rep.decide(ok, rule, f, rets[0] if rets else f.node, text=f"{fn}: mu * (operator - target)^2", what="the penalty is the weight times the square, hence non-negative and zero exactly on the target sector",
-                   reason=f"returns {norm(rets[0].value) if rets else '?'}")
-    sq = idx.function(f"{OPS}::squared_normal_ordered")
-    t = full(sq.node)
-    ok = "fe_op = list_to_fermionoperator(all_terms)" in t and "fe_op *= fe_op" in t and "return normal_ordered(fe_op)" in t
-    rep.decide(ok, rule, sq, sq.node, text="squared_normal_ordered = normal_ordered(op * op)", what="the square is the operator times itself", reason="squaring changed")
-    lf = idx.function(f"{OPS}::list_to_fermionoperator")
-    ok = "fe_op += FermionOperator(item[0], item[1])" in full(lf.node)
-    rep.decide(ok, rule, lf, lf.node, text="list -> operator: sum of FermionOperator(term, coefficient)", what="each list entry contributes its term with its coefficient",
-               reason="list conversion changed")
+    from fractions import Fraction
+    half = sp.Rational(1, 2)
+    for n_orbs in (1, 2):
+        dim = 2 ** (2 * n_orbs)
+        eye = np.eye(dim, dtype=object)
+        for utd in (False, True):
+            N, Sz2, S2_4 = reference_ops(n_orbs, utd)
+            ops = {"N": N * Fraction(1), "Sz": Sz2 * Fraction(1, 2), "S^2": S2_4 * Fraction(1, 4)}
+
+            def pen(key, mu, target):
+                d = ops[key] - _frac(target) * eye
+                return _frac(mu) * d.dot(d)
+            for fn, key, tparam, targets in (("number_operator_penalty", "N", "n_electrons", (0, 1, 2)), ("spin_operator_penalty", "Sz", "sz", (0, half, -1)),
+                                             ("spin2_operator_penalty", "S^2", "s2", (0, 2, sp.Rational(3, 4)))):
+                f = idx.function(f"{PEN}::{fn}")
+                for tg in targets:
+                    for mu in (1, 3):
+                        got = fold_operator(idx, PEN, fn, 2 * n_orbs, {"n_orbs": n_orbs, tparam: tg, "mu": mu, "up_then_down": utd})
+                        rep.decide(_mat_eq(got.m, pen(key, mu, tg)), rule, f, f.node, text=f"{fn}({n_orbs}, {tg}, mu={mu}, up_then_down={utd}) = mu * ({key} - {tg})^2",
+                                   what="the penalty is the weight times the square of (operator - target): non-negative, zero exactly on the target sector",
+                                   reason="matrix of the folded penalty differs from mu * (operator - target)^2")
+            cp = idx.function(f"{PEN}::combined_penalty")
+            for opts in ({"N": [2, 1], "Sz": [3, 0], "S^2": [5, 2]}, {"N": [2, 1]}, {"Sz": [3, half], "S^2": [0, 2]}, {"S^2": [1, 0], "N": [0, 5]}):
+                got = fold_operator(idx, PEN, "combined_penalty", 2 * n_orbs, {"n_orbs": n_orbs, "opt_penalty_terms": {k: list(v) for k, v in opts.items()}, "up_then_down": utd})
+                want = np.zeros((dim, dim), dtype=object)
+                for k, (mu, tg) in opts.items():
+                    if mu > 0:
+                        want = want + pen(k, mu, tg)
+                rep.decide(_mat_eq(got.m, want), rule, cp, cp.node, text=f"combined_penalty({n_orbs}, {opts}, up_then_down={utd})",
+                           what="each requested penalty is added with its own weight and target (zero weights contribute nothing), in the requested ordering",
+                           reason="matrix of the folded combined penalty differs from the sum of the requested penalties")
+            got = fold_operator(idx, PEN, "combined_penalty", 2 * n_orbs, {"n_orbs": n_orbs, "opt_penalty_terms": None, "up_then_down": utd})
+            rep.decide(_mat_eq(got.m, np.zeros((dim, dim), dtype=object)), rule, cp, cp.node, text=f"combined_penalty({n_orbs}, None) is the zero operator",
+                       what="no requested penalty means no penalty", reason="non-zero operator")
+    _FockOp.n = 2
     cp = idx.function(f"{PEN}::combined_penalty")
-    want = {"N": "number_operator_penalty", "Sz": "spin_operator_penalty", "S^2": "spin2_operator_penalty"}
-    got = {}
-    for n in own_nodes(cp.node):
-        if isinstance(n, ast.If) and isinstance(n.test, ast.Compare) and isinstance(n.test.ops[0], ast.Gt) and norm(n.test.comparators[0]) == "0":
-            key = None
-            for x in ast.walk(n.test.left):
-                if isinstance(x, ast.Constant) and isinstance(x.value, str):
-                    key = x.value
-            idx0 = norm(n.test.left).endswith("[0]")
-            calls = [c for s in n.body for c in ast.walk(s) if isinstance(c, ast.Call) and norm(c.func).endswith("_penalty")]
-            unp = [s for s in n.body if isinstance(s, ast.Assign) and isinstance(s.targets[0], ast.Tuple)]
-            if key and calls and unp and idx0:
-                pre, val = [norm(e) for e in unp[0].targets[0].elts]
-                src_ok = norm(unp[0].value) == f"penalty_terms['{key}'][:]"
-                c = calls[0]
-                kws = {k.arg: norm(k.value) for k in c.keywords}
-                args = [norm(a) for a in c.args]
-                ok = src_ok and args == ["n_orbs", val] and kws == {"mu": pre, "up_then_down": "up_then_down"} and \
-                    any(isinstance(s, ast.AugAssign) and isinstance(s.op, ast.Add) and norm(s.target) == "pen_ferm" for s in n.body)
-                got[key] = norm(c.func) if ok else None
-    rep.decide(got == want, rule, cp, cp.node, text="combined penalty: N, Sz, S^2 each added iff its prefactor is positive, with its own target",
-               what="each requested penalty is added with its own weight and target, and the ordering flag is passed through", reason=f"recognised {got}")
-    ok = any(isinstance(n, ast.Raise) for n in ast.walk(cp.node)) and "penalty_terms = {'N': [0, 0], 'Sz': [0, 0], 'S^2': [0, 0]}" in full(cp.node)
-    rep.decide(ok, rule, cp, cp.node, text="unknown penalty keys are refused; defaults are zero weight", what="an unknown penalty name is an error, absent ones contribute nothing",
-               reason="defaults or key validation changed")
+    fo = cs.make_folder(idx, PEN, ctors={"FermionOperator": lambda a, k: _FockOp(*a, **k), "normal_ordered": lambda a, k: a[0]})
+    try:
+        fo.run_function(cp.node, {"n_orbs": 1, "opt_penalty_terms": {"Nz": [1, 1]}, "up_then_down": False})
+        refused = False
+    except Raised:
+        refused = True
+    except Undecidable as e:
+        raise AnalysisError(f"combined_penalty not foldable: {e}")
+    rep.decide(refused, rule, cp, cp.node, text="unknown penalty keys are refused", what="an unknown penalty name is an error", reason="combined_penalty({'Nz': ...}) is accepted")
 
 
 def check_reordering(idx: Index, rep: Report):
